@@ -256,6 +256,7 @@ class SamplerProp(core.Prop):
 
 class C16(SamplerProp):
     ID = 'C16'
+    CROSSHAIR_KERNELS = ['reader_kernels.py']
     FUNCTIONS = ['__init__', 'add_fragment', 'sample', '_select_bonding_operator', '_set_bond_order_defaults',
                  'find_complementary_bonding_descriptor', 'find_open_bonds', 'merge_graphs', 'sort_nodes_by_attr',
                  'set_atom_names_atomistic', 'rebuild_h_atoms', 'from_fragment_string', 'compute_mass']
